@@ -395,7 +395,13 @@ func (m *monitor) checkFilesSettled() {
 	}
 	r.probe("settle-check")
 	want := map[storage.FileDesc]bool{d.Meta(): true}
-	want[storage.FileDesc{Type: storage.TypeJournal, Num: st.journal}] = true
+	// live journals: everything recovery would replay (the frozen buffer's
+	// journal may legitimately still wait for its flush)
+	for _, fd := range d.ListFiles(storage.TypeJournal) {
+		if fd.Num >= st.journal || (st.prevJ != 0 && fd.Num == st.prevJ) {
+			want[fd] = true
+		}
+	}
 	for _, ts := range st.levels {
 		for n := range ts {
 			want[storage.FileDesc{Type: storage.TypeTable, Num: n}] = true
@@ -409,7 +415,12 @@ func (m *monitor) checkFilesSettled() {
 		}
 		delete(want, fd)
 	}
+	var missing []storage.FileDesc
 	for fd := range want {
+		missing = append(missing, fd)
+	}
+	sort.Slice(missing, func(i, j int) bool { return missing[i].Num < missing[j].Num })
+	for _, fd := range missing {
 		r.viol("files-residue", "files-residue:missing:"+fd.Type.String(), fmt.Sprintf("at quiescence live file %s is missing", fd))
 		return
 	}
